@@ -153,7 +153,9 @@ pub fn accepted_class_defect(program: &Program, eps: &ContractEntryPoints, casm:
 }
 
 pub enum Outcome { Panic(String), Rejected(String), Accepted, Defect(&'static str, String) }
-pub fn judge(program: &Program, eps: ContractEntryPoints) -> Outcome {
+pub fn judge(program: &Program, eps: ContractEntryPoints) -> Outcome { judge_as(program, eps, None) }
+/// `minor`: the class claims Sierra version 1.<minor>.0 (versions below 1.4.0 select the equation solvers).
+pub fn judge_as(program: &Program, eps: ContractEntryPoints, minor: Option<u32>) -> Outcome {
     // the untrusted path, exactly: publish (felt-serialize), read back, compile
     let msg = |e: Box<dyn std::any::Any + Send>| if let Some(s) = e.downcast_ref::<String>() { s.clone() } else if let Some(s) = e.downcast_ref::<&str>() { s.to_string() } else { "panic".into() };
     let class = match catch_unwind(AssertUnwindSafe(|| ContractClass::new(program, eps.clone(), None, Default::default()))) {
@@ -161,6 +163,8 @@ pub fn judge(program: &Program, eps: ContractEntryPoints) -> Outcome {
         Ok(Err(e)) => return Outcome::Rejected(format!("not serializable: {e}")),
         Ok(Ok(c)) => c,
     };
+    let mut class = class;
+    if let Some(m) = minor { if class.sierra_program.len() >= 3 { class.sierra_program[1].value = BigUint::from(m); class.sierra_program[2].value = BigUint::from(0u8); } }
     let extracted = match catch_unwind(AssertUnwindSafe(|| class.extract_sierra_program(false))) {
         Err(e) => return Outcome::Panic(format!("extract_sierra_program: {}", msg(e))),
         Ok(Err(e)) => return Outcome::Rejected(format!("not deserializable: {e}")),
@@ -314,13 +318,17 @@ fn __verif_n_class_gen_mutants() {
             cases += 1;
             let input = format!("{name}: {what}");
             let eps = eps.clone();
-            let h = std::thread::Builder::new().stack_size(64 << 20).spawn(move || judge(&q, eps)).unwrap();
+            // every mutant twice: as a current-version class and as a 1.3.0 class (equation solvers)
+            for minor in [None, Some(3u32)] {
+            let (q, eps, input) = (q.clone(), eps.clone(), if minor.is_some() { format!("{input} [published as Sierra 1.3.0]") } else { input.clone() });
+            let h = std::thread::Builder::new().stack_size(64 << 20).spawn(move || judge_as(&q, eps, minor)).unwrap();
             match h.join() {
                 Ok(Outcome::Panic(m)) => { fails.entry(("C14", m.chars().take(60).collect())).or_insert((input, format!("from_contract_class panicked: {m}"))); }
                 Ok(Outcome::Defect(p, w)) => { fails.entry((p, w.chars().take(50).collect())).or_insert((input, w)); }
                 Ok(Outcome::Accepted) => accepted += 1,
                 Ok(Outcome::Rejected(_)) => {}
                 Err(_) => { fails.entry(("C14", "thread".into())).or_insert((input, "thread died".into())); }
+            }
             }
         }
     }
